@@ -10,7 +10,12 @@ RULE = ("level 1: LPDDR4 and LPDDR5 DFIPhaseAdapter alone, random DFI phases (ev
         "give valid=0 and all-DESELECT.  level 2: LPDDR4 CommandsPipeline (8 adapters, default and extended overlap check): "
         "random command streams with every spacing 1..8 and bursts; the decoded serial CS/CA stream must contain exactly the "
         "commands that do not fall inside the 4-slot window of a command actually emitted earlier, each at slot "
-        "8*cycle + phase + constant latency, nothing else non-idle on CS.  non-trivial iff >=200 commands were decoded and "
+        "8*cycle + phase + constant latency, nothing else non-idle on CS.  level 3: the same oracle on the real LPDDR4PHY class "
+        "(simulation pads) observed at its unserialized .out CS/CA words.  level 4: the real LPDDR5PHY class (simulation pads, "
+        "WCK:CK 2 and 4, masked/unmasked write): random DFI streams incl. back-to-back commands; each command not overlapping "
+        "the second half of the command accepted one cycle earlier must appear as (first half in its own cycle, second half in "
+        "the next) and decode to the DFI operation, with the WCK-sync bits the PHY's own sync state requires; a command in the "
+        "cycle right after an accepted one is the only thing suppressed; nothing else non-idle on CS/CA.  non-trivial iff >=200 commands were decoded and "
         "every command type and every overlap distance 1..3 was seen; distinct = distinct (level, variant, seed)")
 ASSUMPTIONS = [
     "Migen simulator semantics",
@@ -39,6 +44,11 @@ def cases(tier, seed):
     for k in range(n3):
         out.append(dict(level=3, extended=bool(k % 2), cycles=200 if tier == "quick" else 600, density=[0.05, 0.1, 0.3][k % 3],
                         clk=[50e6, 100e6, 200e6][k % 3], seed="C20/3/%d/%d" % (seed, k), name="L3-phy-%s-%d" % ("ext" if k % 2 else "basic", k), cost=20))
+    n4 = 8 if tier == "quick" else 40
+    for k in range(n4):
+        out.append(dict(level=4, masked_write=k % 2, wck_ck_ratio=[2, 4][(k // 2) % 2], cycles=1500 if tier == "quick" else 5000,
+                        density=[0.1, 0.3, 0.6, 0.95][k % 4], clk=[50e6, 100e6][(k // 4) % 2], seed="C20/4/%d/%d" % (seed, k),
+                        name="L4-lp5phy-mw%d-r%d-%d" % (k % 2, [2, 4][(k // 2) % 2], k), cost=15))
     return out
 
 
@@ -492,7 +502,95 @@ def run_level2(c):
                 signature="L%d|%s|%s|%s" % (c["level"], c["extended"], c["density"], c["seed"]))
 
 
+# ------------------------------------------------------------------------------------------------ level 4
+def run_level4(c):
+    """the complete LPDDR5PHY command path (real PHY class, simulation pads), observed at its unserialized `.out` CS/CA"""
+    from .. import shim  # noqa
+    from migen import Module
+    from litedram.phy.lpddr5.basephy import LPDDR5PHY
+    from litedram.phy.lpddr5.simphy import LPDDR5SimulationPads
+    from litedram.phy.utils import Latency
+    from ..core import run_sim
+    r = random.Random(c["seed"])
+
+    class DUT(Module):
+        def __init__(self):
+            pads = LPDDR5SimulationPads()
+            self.submodules += pads
+            self.submodules.phy = LPDDR5PHY(pads, ck_freq=c["clk"], phytype="VerifLPDDR5", ser_latency=Latency(sys=1),
+                                            des_latency=Latency(sys=2), wck_ck_ratio=c["wck_ck_ratio"], masked_write=bool(c["masked_write"]))
+
+    dut = DUT()
+    p = dut.phy.dfi.p0
+    out = dut.phy.out
+    trace = []     # per cycle: (dfi command or None, wck_sync_done, cs, rising CA, falling CA)
+    state = dict(done=False)
+    ncyc = c["cycles"]
+
+    def main():
+        pending = None
+        for k in range(ncyc + 4):
+            if k < ncyc and r.random() < c["density"]:
+                cmd, bank, addr = rand_phase(r, 18, 7, r.randrange(4))
+                cs_n = 1 if r.random() < 0.05 else 0
+                cas, ras, we = DFI_CMDS[cmd]
+                yield [p.cs_n.eq(cs_n), p.cas_n.eq(1 - cas), p.ras_n.eq(1 - ras), p.we_n.eq(1 - we), p.bank.eq(bank), p.address.eq(addr)]
+                cur = (cmd, bank, addr, cs_n)
+            else:
+                yield [p.cs_n.eq(1), p.cas_n.eq(1), p.ras_n.eq(1), p.we_n.eq(1), p.bank.eq(r.getrandbits(7)), p.address.eq(r.getrandbits(18))]
+                cur = None
+            yield
+            vals = yield [dut.phy.adapter.wck_sync_done, out.cs] + list(out.ca)
+            rise = sum(((vals[2 + i] >> 0) & 1) << i for i in range(7))
+            fall = sum(((vals[2 + i] >> 1) & 1) << i for i in range(7))
+            trace.append((cur, vals[0], vals[1], rise, fall))
+        state["done"] = True
+
+    run_sim(dut, [main()], lambda: state["done"], 4 * ncyc + 200, wall_limit=900)
+    v = []
+    seen = {}
+    n_sent = n_emitted = n_suppressed = 0
+    explained = set()      # cycles whose CS/CA are accounted for by an emitted command
+    busy = False           # the second half of the previous command occupies this cycle
+    sync_states = set()
+    for n, (cur, sync_done, cs, rise, fall) in enumerate(trace[:-1]):
+        exp = lp5_expected(cur[0], cur[1], cur[2], c["masked_write"], sync_done, cur[3]) if cur is not None else None
+        if exp is None:
+            busy = False
+            continue
+        n_sent += 1
+        if busy:
+            # the only legitimate suppression: it would overlap the second half of the command accepted one cycle earlier
+            n_suppressed += 1
+            busy = False
+            continue
+        n_emitted += 1
+        sync_states.add(sync_done)
+        cs2, rise2, fall2 = trace[n + 1][2:5]
+        s1 = lp5_small(rise, fall) if cs else None
+        s2 = lp5_small(rise2, fall2) if cs2 else None
+        got = None if (s1 is None and s2 is None) else (lp5_full(s1, s2) if s2 is not None else ("FIRST-SLOT-ONLY", s1[0]))
+        explained.update((n, n + 1))
+        seen[exp[0]] = seen.get(exp[0], 0) + 1
+        if got != exp and len(v) < 12:
+            v.append(dict(kind="emitted-command-differs", cycle=n, dfi=dict(cmd=cur[0], bank=cur[1], addr=hex(cur[2])), expected=exp,
+                          decoded=got, wck_sync_done=sync_done, previous_cycle_had_command=bool(n and trace[n - 1][0])))
+        if s1 is None and not cs and (rise or fall) and len(v) < 12:
+            v.append(dict(kind="ca-not-idle-in-deselected-first-half", cycle=n, rise=rise, fall=fall))
+        busy = True
+    for n, (cur, sync_done, cs, rise, fall) in enumerate(trace):
+        if n not in explained and (cs or rise or fall) and len(v) < 12:
+            v.append(dict(kind="unexpected-command-on-the-pads", cycle=n, cs=cs, rise=rise, fall=fall, dfi=cur))
+    kinds_needed = {"ACT", "RD", "PRE", "REF", "MRW", "MPC", "MRR", "MWR" if c["masked_write"] else "WR"}
+    st = dict(sent=n_sent, emitted=n_emitted, suppressed_by_rule=n_suppressed, by_type=seen, wck_sync_states=sorted(sync_states))
+    nontrivial = n_emitted >= 100 and kinds_needed <= set(seen) and (n_suppressed > 0 or c["density"] < 0.2)
+    return dict(verdict="violated" if v else "held", violations=v[:10], stats=st, nontrivial=bool(nontrivial) or bool(v),
+                signature="L4|%s|%s|%s|%s" % (c["masked_write"], c["wck_ck_ratio"], c["density"], c["seed"]))
+
+
 def run_case(c):
+    if c["level"] == 4:
+        return run_level4(c)
     return run_level1(c) if c["level"] == 1 else run_level2(c)      # level 3 reuses the level-2 oracle on the PHY's outputs
 
 
@@ -500,8 +598,18 @@ def aggregate(results, cases):
     tot = dict(l1_commands_decoded=0, l2_sent=0, l2_decoded=0, l2_suppressed_by_rule=0, l2_over_suppressed=0)
     tot["level3_phy_cases"] = sum(1 for c in cases if c.get("level") == 3)
     types = {}
+    by0 = {c["name"]: c for c in cases}
+    l4 = dict(cases=0, sent=0, emitted=0, suppressed_by_rule=0, by_type={}, wck_sync_states=set())
     for r in results:
         st = r.get("stats") or {}
+        if (by0.get(r["name"]) or {}).get("level") == 4:
+            l4["cases"] += 1
+            for k in ("sent", "emitted", "suppressed_by_rule"):
+                l4[k] += st.get(k, 0) or 0
+            for k, n in (st.get("by_type") or {}).items():
+                l4["by_type"][k] = l4["by_type"].get(k, 0) + n
+            l4["wck_sync_states"].update(st.get("wck_sync_states") or [])
+            continue
         tot["l1_commands_decoded"] += st.get("commands_decoded", 0) or 0
         for k, n in (st.get("by_type") or {}).items():
             types[k] = types.get(k, 0) + n
@@ -511,10 +619,14 @@ def aggregate(results, cases):
         tot["l2_over_suppressed"] += st.get("over_suppressed", 0) or 0
     by = {c["name"]: c for c in cases}
     samples = [dict(case=by.get(r["name"]), verdict=r["verdict"], stats=r.get("stats")) for r in results[:2] + results[-2:]]
-    return dict(observed=tot, level1_commands_by_type=types, samples=samples)
+    l4["wck_sync_states"] = sorted(l4["wck_sync_states"])
+    return dict(observed=tot, level1_commands_by_type=types, level4_lpddr5_phy=l4, samples=samples)
 
 
 def summary(cov):
     o = cov["observed"]
-    return "  observed: level 1: %d commands decoded %s; level 2: %d sent, %d decoded on the pads, %d suppressed by the overlap rule, %d over-suppressed" % (
-        o["l1_commands_decoded"], cov["level1_commands_by_type"], o["l2_sent"], o["l2_decoded"], o["l2_suppressed_by_rule"], o["l2_over_suppressed"])
+    l4 = cov.get("level4_lpddr5_phy") or {}
+    return ("  observed: level 1: %d commands decoded %s; level 2+3: %d sent, %d decoded on the pads, %d suppressed by the overlap rule, "
+            "%d over-suppressed; level 4 (LPDDR5PHY): %s sent, %s emitted and decoded, %s suppressed by the rule, WCK-sync states %s") % (
+        o["l1_commands_decoded"], cov["level1_commands_by_type"], o["l2_sent"], o["l2_decoded"], o["l2_suppressed_by_rule"],
+        o["l2_over_suppressed"], l4.get("sent"), l4.get("emitted"), l4.get("suppressed_by_rule"), l4.get("wck_sync_states"))
